@@ -506,30 +506,17 @@ The theorems below are about that generated table, for every sequence of line nu
 section Flow
 open BlameFlow
 
-set_option linter.unusedSimpArgs false in
-/-- What the property needs of the generated table, for every state, key, line number, author, commit and
-register content: the flag that reaches `get_color` *is* "same key as the previous blame line"; the metadata
+/-- The checks of the generated data-flow table (`BlameFlow.tableOk`, syntactic and conservative, sound for
+every table: `Proofs/BlameFlow.lean`): the flag that reaches `get_color` is the test `previous key = key` itself;
+a blanked metadata column / a blanked number forces that test; the state update is skipped at most when the
+test holds; no checked `usize` arithmetic and no undeclared register anywhere in the table. -/
+theorem repeat_flow_table_ok : tableOk = true := by decide
+
+/-- What the property needs of the data flow of `is_repeat`, for every state, key, line number, author, commit
+and register content: the flag that reaches `get_color` *is* "same key as the previous blame line"; the metadata
 and the line number are blanked *only* for the key of the previous blame line; after the line the state is
 `State::Blame(key)`; no `usize` panic point in the flag / register arithmetic. -/
-theorem repeat_flow_ok : FlowOk := by
-  refine flowOk_of_table ?_ ?_ ?_ ?_ ?_
-  · intro e b h
-    simp [Generated.BlameFlow.styleFlag, evalB, evalO, evalS, evalN, cmpNat, Env.keyEq] at h ⊢
-    first | exact h.symm | exact h | omega
-  · intro e h
-    simp [Generated.BlameFlow.blankFlag, evalB, evalO, evalS, evalN, cmpNat, Env.keyEq] at h ⊢
-    first | exact h | exact h.1 | exact h.2 | omega
-  · intro e h
-    simp [Generated.BlameFlow.numberFlag, evalB, evalO, evalS, evalN, cmpNat, Env.keyEq] at h ⊢
-    first | exact h | exact h.1 | exact h.2 | omega
-  · intro e h
-    simp [Generated.BlameFlow.stateGuard, evalB, evalO, evalS, evalN, cmpNat, Env.keyEq] at h ⊢
-  · intro e hw
-    rcases e with ⟨pk, k, n, a, c, regs, sregs, o⟩
-    simp [Env.wf, Generated.BlameFlow.numRegs, Generated.BlameFlow.strRegs] at hw
-    obtain ⟨h1, h2⟩ := hw
-    subst h1; subst h2
-    rfl
+theorem repeat_flow_ok : FlowOk := flowOk_of_tableOk repeat_flow_table_ok
 
 example : (flags ⟨some ['k'], ['k'], 80, [], [], Generated.BlameFlow.numRegs.map (·.2),
       Generated.BlameFlow.strRegs.map (fun _ => none), fun _ => false⟩).map (fun f => (f.style, f.update)) =
